@@ -101,10 +101,15 @@ def generate(seed, tier):
     for _ in range(orng.randint(6, 16 if tier == "quick" else 40)):
         p = orng.randrange(n_parties)
         r = orng.random()
-        if top_lo and r < 0.1:
+        if top_lo and r < 0.14:
             # the list gets a new set of element objects (same length: constraints by index stay valid)
             f = orng.choice(top_lo)
-            ops.append({"op": "lo_replace", "p": p, "path": [f["n"]], "cls": f["c"], "n": f["sz"]})
+            if orng.random() < 0.5:
+                ops.append({"op": "lo_replace", "p": p, "path": [f["n"]], "cls": f["c"], "n": f["sz"]})
+            else:
+                # a single element is replaced by index assignment
+                ops.append({"op": "lo_setitem", "p": p, "path": [f["n"]], "cls": f["c"],
+                            "i": orng.randrange(max(1, f["sz"]))})
         elif r < 0.5:
             ops.append({"op": "randomize", "p": p})
         elif r < 0.7 and own:
@@ -167,7 +172,7 @@ def execute(rec):
         out = w.apply(op)
         if kind == "assign" and op.get("nrsub"):
             stats["nonrand_sub_assigns"] += 1
-        if kind == "lo_replace":
+        if kind in ("lo_replace", "lo_setitem"):
             stats["list_replacements"] = stats.get("list_replacements", 0) + 1
         if kind not in ("randomize", "rw"):
             obs.append((oi, kind, out["st"]))
